@@ -234,11 +234,25 @@ class C08(core.Prop):
             for (ci, kind, value) in self._perturbations(case, cons, rng):
                 row = [None if case['table']['nrows'] == 0 else c['cells'][0] for c in case['table']['cols']]
                 row[ci] = value
-                build(path, case['table'], extra_row=row)
                 p = {'col': ci, 'kind': kind, 'value': value, 'row': row, 'verif': None, 'exc': None}
+                same_connection = rng.random() < 0.5
                 try:
+                    if same_connection:
+                        # the row arrives while a connection that has already verified the table is still in use
+                        build(path, case['table'])
+                        with quiet():
+                            db2 = database_connection(dbtype='sqlite', db=path)
+                            verify_db_table('sqlite', db2, 't', tdda, testing=True)
+                        c2 = sqlite3.connect(path)
+                        c2.execute('INSERT INTO t VALUES (%s)' % ','.join('?' * len(row)), row)
+                        c2.commit()
+                        c2.close()
+                        p['same_connection'] = True
+                    else:
+                        build(path, case['table'], extra_row=row)
+                        with quiet():
+                            db2 = database_connection(dbtype='sqlite', db=path)
                     with quiet():
-                        db2 = database_connection(dbtype='sqlite', db=path)
                         p['verif'] = verify_db_table('sqlite', db2, 't', tdda, testing=True)
                 except BaseException as e:   # noqa
                     p['exc'] = e
